@@ -57,8 +57,14 @@ func (in *Interp) unop(fr *frame, ins *ssa.UnOp, x value) value {
 // equals returns a Bool term for x == y of static type T.
 func (in *Interp) equals(T types.Type, x, y value) *Term {
 	c := in.ctx
+	if in.isSymF(x) || in.isSymF(y) {
+		return in.symFCmp(token.EQL, x, y)
+	}
 	switch a := x.(type) {
 	case *Term:
+		if a.sort.K == SFP {
+			return in.fpCmp(token.EQL, a, in.toFP(y))
+		}
 		return c.Eq(a, y.(*Term))
 	case string, SymStr:
 		xb, yb := in.strBytes(x), in.strBytes(y)
@@ -79,6 +85,9 @@ func (in *Interp) equals(T types.Type, x, y value) *Term {
 		}
 		return r
 	case float64:
+		if yt, ok := y.(*Term); ok {
+			return in.fpCmp(token.EQL, in.toFP(a), yt)
+		}
 		return c.Bool(a == y.(float64))
 	case float32:
 		return c.Bool(a == y.(float32))
@@ -205,6 +214,16 @@ func (in *Interp) binop(op token.Token, T, TY types.Type, x, y value) value {
 		return in.equals(T, x, y)
 	case token.NEQ:
 		return c.Not(in.equals(T, x, y))
+	}
+	if in.isSymF(x) || in.isSymF(y) {
+		switch op {
+		case token.LSS, token.LEQ, token.GTR, token.GEQ:
+			return in.symFCmp(op, x, y)
+		}
+		return in.symFArith(op, x, y)
+	}
+	if in.isSymFP(x) || in.isSymFP(y) {
+		return in.fpBinop(op, in.toFP(x), in.toFP(y))
 	}
 	switch a := x.(type) {
 	case *Term:
@@ -470,6 +489,13 @@ func (in *Interp) conv(dst, src types.Type, x value) value {
 		if wd, _, ok := intInfo(bd); ok {
 			switch v := x.(type) {
 			case *Term:
+				if v.sort.K == SFP {
+					_, sdst, _ := intInfo(bd)
+					if sdst {
+						return c.fpOp(OFpToSBV, bvSort(wd), wd, v)
+					}
+					return c.fpOp(OFpToUBV, bvSort(wd), wd, v)
+				}
 				_, ssrc, _ := intInfo(us)
 				if v.sort.W >= wd {
 					return c.Extract(wd-1, 0, v)
@@ -494,11 +520,15 @@ func (in *Interp) conv(dst, src types.Type, x value) value {
 			var f float64
 			switch v := x.(type) {
 			case *Term:
+				if v.sort.K == SFP {
+					return v
+				}
 				if !v.isConst() {
-					if in.eng.symFloatFree {
-						// uninterpreted conversion: treated as an opaque float via fresh concrete 0 is unsound; abort
+					if bd.Kind() == types.Float32 {
+						panic(engineErr("int->float32 conversion of symbolic value"))
 					}
-					panic(engineErr("int->float conversion of symbolic value"))
+					_, ssrc, _ := intInfo(us)
+					return in.symFFromInt(v, ssrc)
 				}
 				_, ssrc, _ := intInfo(us)
 				if ssrc {
@@ -510,6 +540,8 @@ func (in *Interp) conv(dst, src types.Type, x value) value {
 				f = v
 			case float32:
 				f = float64(v)
+			case SymF:
+				return v
 			default:
 				panic(engineErr("conv to float from %T", x))
 			}
@@ -613,6 +645,20 @@ func (in *Interp) callBuiltin(fr *frame, pos token.Pos, fn *ssa.Builtin, args []
 		return r
 	case "clear":
 		switch x := args[0].(type) {
+		case SliceV:
+			var elemT types.Type
+			if sl, ok := fn.Type().(*types.Signature).Params().At(0).Type().Underlying().(*types.Slice); ok {
+				elemT = sl.Elem()
+			}
+			n := in.sliceMax(x)
+			for i := 0; i < n; i++ {
+				var g *Term
+				if !x.len.isConst() {
+					g = c.Ult(c.I64(int64(i)), x.len)
+				}
+				in.sliceSet(x, i, in.zero(elemT), g)
+			}
+			return nil
 		case *MapV:
 			if x != nil {
 				x.keys, x.vals, x.live, x.n, x.index = nil, nil, nil, 0, map[string]int{}
@@ -748,20 +794,16 @@ func (in *Interp) appendVals(s SliceV, t value, fn *ssa.Builtin) value {
 	}
 	// grow
 	ncap := maxS + maxT
-	if s.len.isConst() && src.len.isConst() {
-		// mimic Go growth loosely: double
-		if d := 2 * maxS; d > ncap {
-			ncap = d
-		}
-		if ncap < 8 {
-			ncap = 8
-		}
-	}
 	var elemT types.Type
 	if fn == nil {
 		elemT = types.Typ[types.Uint8]
 	} else if sl, ok := fn.Type().(*types.Signature).Params().At(0).Type().Underlying().(*types.Slice); ok {
 		elemT = sl.Elem()
+	}
+	if s.len.isConst() && src.len.isConst() && s.cap.isConst() && elemT != nil {
+		ncap = int(goGrowCap(int64(s.cap.val), int64(s.len.val+src.len.val), in.elemSize(elemT), !hasPointers(elemT)))
+	} else if ncap < 8 {
+		ncap = 8
 	}
 	back := make([]value, ncap)
 	for i := 0; i < maxS; i++ {
@@ -965,4 +1007,57 @@ func (in *Interp) iterNext(itv value, ins *ssa.Next) value {
 		return tuple{c.tt, c.I64(int64(p)), c.BV(32, uint64(uint32(r)))}
 	}
 	panic(engineErr("next on %T", itv))
+}
+
+// ---- symbolic floating point (float64 only)
+
+func (in *Interp) isSymFP(v value) bool {
+	t, ok := v.(*Term)
+	return ok && t.sort.K == SFP
+}
+
+func (in *Interp) toFP(v value) *Term {
+	switch x := v.(type) {
+	case *Term:
+		if x.sort.K == SFP {
+			return x
+		}
+	case float64:
+		return in.ctx.FP(math.Float64bits(x))
+	}
+	panic(engineErr("toFP: %T (float32 symbolic arithmetic unsupported)", v))
+}
+
+func (in *Interp) fpCmp(op token.Token, a, b *Term) *Term {
+	c := in.ctx
+	switch op {
+	case token.EQL:
+		return c.fpOp(OFpEq, sortBool, 0, a, b)
+	case token.LSS:
+		return c.fpOp(OFpLt, sortBool, 0, a, b)
+	case token.LEQ:
+		return c.fpOp(OFpLe, sortBool, 0, a, b)
+	case token.GTR:
+		return c.fpOp(OFpLt, sortBool, 0, b, a)
+	case token.GEQ:
+		return c.fpOp(OFpLe, sortBool, 0, b, a)
+	}
+	panic(engineErr("fpCmp %v", op))
+}
+
+func (in *Interp) fpBinop(op token.Token, a, b *Term) value {
+	c := in.ctx
+	switch op {
+	case token.ADD:
+		return c.fpOp(OFpAdd, sortFP, 0, a, b)
+	case token.SUB:
+		return c.fpOp(OFpSub, sortFP, 0, a, b)
+	case token.MUL:
+		return c.fpOp(OFpMul, sortFP, 0, a, b)
+	case token.QUO:
+		return c.fpOp(OFpDiv, sortFP, 0, a, b)
+	case token.LSS, token.LEQ, token.GTR, token.GEQ:
+		return in.fpCmp(op, a, b)
+	}
+	panic(engineErr("float binop %v on symbolic operands", op))
 }
